@@ -62,6 +62,7 @@ func c02Scenarios() []c02Scenario {
 		{name: "honest", prove: func(q *rawReq) {}},
 		{name: "signed-by-other-device", prove: func(q *rawReq) { q.Signer = 2 }},
 		{name: "signed-by-stranger", prove: func(q *rawReq) { q.Signer = -1 }},
+		{name: "signed-by-stranger-with-a-key-of-another-family", prove: func(q *rawReq) { q.Signer = -2 }},
 		{name: "nonce-of-other-session-same-device", prove: func(q *rawReq) { q.NonceOf = 1 }},
 		{name: "nonce-of-other-device-session", prove: func(q *rawReq) { q.NonceOf = 2 }},
 		{name: "nonce-of-no-session", prove: func(q *rawReq) { q.NonceOf = -1 }},
